@@ -7,7 +7,7 @@ from .. import scenario
 ID = "C04"
 LEVEL = "exploration"
 RULE = ("five case families: (0) SIZE boundaries of the file format - string literals of 250 ... 70 000 bytes around every power of two, functions capturing up to 300 variables, files with up to 1 200 functions, names of 1 000 characters, class and method names (function labels) of up to 300 characters, jumps over 12 000 statements, literals with 1 000 elements, 250 parameters - each with a computed expected output; (0b) REPEATED LABELS - same-named classes in two function bodies, in the if and the else block, at module level and inside a function, same-named inner functions and methods, with the first, the second or both in use (differential only); (1) every .ms file of the repository's example corpus as entry point of a copy of its directory; "
-        "(1a) a FIRST-STATEMENT family: every looping / branching statement as the first statement of a program and of a function body of every kind (parameterless, with a parameter, void, closure, method, constructor, callback, function in a list); (1a') a LAST-STATEMENT family: the same statements as the last statement of a program and of a void function body of every kind; (1b) a RECOMPILE family: the same programs compiled into a directory that already holds the bytecode of an earlier, longer program under the same file name (the edit / recompile cycle); "
+        "(1a) a FIRST-STATEMENT family: every looping / branching statement as the first statement of a program and of a function body of every kind (parameterless, with a parameter, void, closure, method, constructor, callback, function in a list); (1a') a LAST-STATEMENT family: the same statements as the last statement of a program and of a void function body of every kind; (1a'') a FILE-NAME family: one program under 21 entry file names (dots in the stem, upper case, leading dot, blanks, non-ASCII, punctuation, names of other artefacts); (1b) a RECOMPILE family: the same programs compiled into a directory that already holds the bytecode of an earlier, longer program under the same file name (the edit / recompile cycle); "
         "(2) programs from the generators of C01, C07, C08, C12, C13, C15 and the two-module failing programs of C17 "
         "(Hypothesis); (3) 80 string VALUES that read like tokens of another lexical class (numbers in every spelling, booleans, keywords, instruction / register / label names, paths, comment openers); every ASCII character (0-127) and seven further code points alone, doubled, embedded and next to a quote / backslash / space; EXHAUSTIVELY all string literals up to length 3 (quick: + a seeded sample of length 4; thorough: all "
         "of length 4) over the alphabet {quote, backslash, space, TAB, LF, CR, n, r, t, a, e-acute, emoji, NBSP, U+3000, VT, NUL} in escaped and raw "
@@ -377,6 +377,20 @@ def last_statement_cases():
     return out
 
 
+ENTRY_NAMES = ["shapes.v2.ms", "two.dots.here.ms", "UPPER.ms", "MiXed.Case.ms", ".hidden.ms", "a b.ms", "\u00e9t\u00e9.ms", "x.mmm.ms", "x.transpiled.ms", "x.ms.ms", "a,b.ms",
+               "a;b.ms", "a=b.ms", "a+b.ms", "a'b.ms", "a&b.ms", "(x).ms", "[x].ms", "1.ms", "__module__.ms", "main.main.ms"]
+
+
+def file_name_cases():
+    """the SAME program under entry file names of every shape (dots in the stem, upper case, a leading dot, blanks, non-ASCII,
+    punctuation, names that look like other artefacts): file names end up in the labels of the bytecode and in the paths the
+    commands derive from one another, the program does not care what its file is called"""
+    src = ("class Pt {\n\tx: int\n\tconstructor(self, x: int) {\n\t\tself.x = x\n\t}\n\tfn twin(self) -> Self {\n\t\treturn Self(self.x + 1)\n\t}\n}\n"
+           "mk = fn(k: int) -> fn() -> int {\n\treturn fn() -> int {\n\t\treturn k * 2\n\t}\n}\np = Pt(4)\nprint (p.twin()).x\ng = mk(21)\nprint g()\n"
+           "xs: [int...] = [1, 2, 3]\nprint xs.map(fn(v: int) -> int {\n\treturn v + (p.twin()).x\n})\nprint \"@end\"\n")
+    return [{"family": "file-names", "origin": "file-name:" + n, "files": {n: src}, "entry": n, "expect": "5\n42\n[6, 7, 8]\n@end\n"} for n in ENTRY_NAMES]
+
+
 def recompile_cases():
     """the edit / recompile cycle: `compile` writes main.mmm over the output of an earlier, LONGER program of the same name;
     what `execute` then runs must be the new program and nothing else"""
@@ -393,7 +407,7 @@ def recompile_cases():
 
 
 def enumerated(tier, seed):
-    return corpus_cases() + size_cases() + label_cases() + first_statement_cases() + last_statement_cases() + recompile_cases() + string_cases(tier, seed)
+    return corpus_cases() + size_cases() + label_cases() + first_statement_cases() + last_statement_cases() + file_name_cases() + recompile_cases() + string_cases(tier, seed)
 
 
 def strategy(tier):
